@@ -11,6 +11,14 @@ from mc import hdriver
 from mc.symeval import Unevaluable
 
 
+PRECOMPILE_FUNS = ("f_ecrecover", "f_sha256", "f_ripemd160", "f_modexp", "f_ecadd", "f_ecmul", "f_ecpairing", "f_blake2f", "f_point_evaluation")
+
+
+def outside_alphabet(msg):
+    """terms that only arise when a program reaches a precompile other than identity: excluded from the alphabets (DESIGN B.1)"""
+    return any(f in msg for f in PRECOMPILE_FUNS)
+
+
 class Issue:
     def __init__(self, kind, detail, inputs=None, path=None):
         self.kind, self.detail, self.inputs, self.path = kind, detail, inputs, path
@@ -67,6 +75,9 @@ def check_program(spec, grid, want_coverage=True, max_issues=5, results=None, sk
             try:
                 sat, assumption_ok, outcome = pe.run(env)
             except Unevaluable as e:
+                if outside_alphabet(str(e)):
+                    stats["skipped_inputs"] += 1
+                    continue
                 issues.append(Issue("unevaluable", f"path {idx}: {e}", inputs))
                 return issues, stats
             if not sat:
